@@ -560,9 +560,9 @@ def r5_effects(L, repo):
 
 def run(L, tier):
     repo = Repo(L.repo)
-    r1_one_reply(L, repo)
-    r2_format(L, repo)
-    r3_dispatch_returns(L, repo)
-    got = r4_verb_table(L, repo, tier)
-    r4_trxcon_sibling(L, repo, got)
-    r5_effects(L, repo)
+    L.stage(r1_one_reply, L, repo)
+    L.stage(r2_format, L, repo)
+    L.stage(r3_dispatch_returns, L, repo)
+    got = L.stage(r4_verb_table, L, repo, tier)
+    L.stage(r4_trxcon_sibling, L, repo, got)
+    L.stage(r5_effects, L, repo)
